@@ -105,6 +105,7 @@ fn alphabet(n: usize, tier: Tier) -> Vec<Dev> {
         true
     }));
     d.extend(crate::devs::rich_generic_devs(true));
+    d.extend(crate::devs::rare_shape_devs(n, true));
     d.extend(crate::devs::syntax_devs(false, false, true, false).into_iter().filter(|d| d.label.contains("doc(hidden)")));
     for v in ["pub(crate)", "pub(super)"] {
         d.push(dev(format!("enum vis {}", v), &["evis"], move |s| {
@@ -140,6 +141,14 @@ fn alphabet(n: usize, tier: Tier) -> Vec<Dev> {
         s.extra_attrs.push("#[strum_discriminants(derive(strum::Display))]".into());
         s.extra_attrs.push("#[strum_discriminants(strum(prefix = \"p/\"))]".into());
         s.extra_attrs.push("#[strum_discriminants(strum(serialize_all = \"snake_case\"))]".into());
+        true
+    }));
+    // variant-level pass-through of a BARE PATH and of a NAME = VALUE attribute (the enum-level parser only takes lists)
+    d.push(dev("strum_discriminants(derive(Default)) + last variant: #[strum_discriminants(default)] + #[strum_discriminants(doc = \"d\")]", &["dder2"], |s| {
+        s.extra_attrs.push("#[strum_discriminants(derive(Default))]".into());
+        let n = s.variants.len();
+        s.variants[n - 1].extra_attrs.push("#[strum_discriminants(default)]".into());
+        s.variants[n - 1].extra_attrs.push("#[strum_discriminants(doc = \"d\")]".into());
         true
     }));
     d.push(dev("strum_discriminants(cfg_attr(all(), derive(EnumMessage))) + v0 pass-through message", &["dd", "dmsg0"], |s| {
@@ -357,7 +366,9 @@ pub fn render(spec: &EnumSpec) -> String {
         for v in &spec.variants {
             let snake = refsem::recase(&v.ident, refsem::Style::Snake);
             o.push_str(&format!("    extras.push((\"pass-through serialize_all: Display of {id}\".into(), {sn:?}.into(), DC::{id}.to_string()));\n", id = v.ident, sn = snake));
-            o.push_str(&format!("    extras.push((\"pass-through serialize_all: EnumString of {sn}\".into(), \"Ok({id})\".into(), format!(\"{{:?}}\", <DC as core::str::FromStr>::from_str({sn:?}))));\n", id = v.ident, sn = snake));
+            // two identifiers can share one snake_case name (Kk / KK): the first declared one is parsed
+            let first = spec.variants.iter().find(|w| refsem::recase(&w.ident, refsem::Style::Snake) == snake).map(|w| w.ident.clone()).unwrap_or_else(|| v.ident.clone());
+            o.push_str(&format!("    extras.push((\"pass-through serialize_all: EnumString of {sn}\".into(), \"Ok({id})\".into(), format!(\"{{:?}}\", <DC as core::str::FromStr>::from_str({sn:?}))));\n", id = crate::spec::unraw(&first), sn = snake));
         }
     }
     if all.contains("prefix = \"p/\"") {
@@ -365,6 +376,10 @@ pub fn render(spec: &EnumSpec) -> String {
             let want = format!("p/{}", refsem::recase(&v.ident, refsem::Style::Snake));
             o.push_str(&format!("    extras.push((\"two strum(..) pass-through items (serialize_all + prefix): Display of {id}\".into(), {w:?}.into(), DC::{id}.to_string()));\n", id = v.ident, w = want));
         }
+    }
+    if all.contains("derive(Default)") {
+        let last = &spec.variants[spec.variants.len() - 1];
+        o.push_str(&format!("    extras.push((\"variant-level #[strum_discriminants(default)]: <D as Default>::default()\".into(), {id:?}.into(), format!(\"{{:?}}\", <DC as Default>::default())));\n", id = crate::spec::unraw(&last.ident)));
     }
     if all.contains("alias::Display") {
         o.push_str(&format!("    extras.push((\"first derive list (strum::Display) took effect\".into(), {id:?}.into(), DC::{id}.to_string()));\n", id = spec.variants[0].ident));
